@@ -426,6 +426,8 @@ class Exec:
                 rx.filled += k; env['pos'] += k
         if name.startswith('std::boxed::Box::<') and name.endswith('::pin'):
             c = Cell(args[0]); return Agg([Ref(c, [])])
+        if name.startswith('std::intrinsics::bitreverse::<'):
+            x = args[0]; n = x.size(); return simp(z3.Concat(*[z3.Extract(i, i, x) for i in range(n)]))
         if name.startswith('std::fmt::'): return Opaque('fmt')
         if name.startswith('core::panicking::') or name.startswith('std::rt::panic'): raise Panic(name)
         raise Unsupported('no model for ' + name)
